@@ -16,8 +16,9 @@ RULE = ('Outer: Hypothesis draws models with a multi-client capable provides por
         'histories (operation sequences as data: claim(client, reply) / release(client) / other(client, '
         'event) / raise(out-event), 1-4 registered clients, honest-arbiter or arbitrary reply policy), '
         'each run against the compiled driver. Oracle: reference claim model Q (granted and not '
-        'released since): every component out-event reaches exactly the member of Q (nobody if Q is '
-        'empty; under the arbitrary policy with |Q| >= 2: at most one client and only members of Q); '
+        'released since, ordered by grant): every component out-event reaches exactly the most recent '
+        'grantee in Q (nobody if Q is empty; after the most recent grantee released while overruled '
+        'earlier grantees remain: at most one client and only members of Q); '
         'every client in-event produces exactly one component-side entry in dispatcher context with '
         'equal arguments and its reply / out values come back to that client. Failing histories are '
         'delta-debugged. Non-trivial: a history with >= 2 clients containing a grant, an out-event and '
@@ -59,7 +60,8 @@ def interpret(facts, hist):
     script = [f'locator {imp} {imp} 0 0', 'construct inst'] + [f'client {c} -' for c in clients] + \
         ['bind -', 'final 0']
     q = []  # granted and not released since, in order of granting
-    weak = False  # two clients were granted at once (dishonest arbiter): who holds the claim is open
+    stale = False  # the most recent grantee released while earlier (overruled) grantees remain:
+    #                who - if anybody - holds the claim then is left open by the statement
     steps = []
     for i, o in enumerate(hist['ops']):
         c = clients[o['c'] % len(clients)]
@@ -80,14 +82,16 @@ def interpret(facts, hist):
                 if c in q:
                     q.remove(c)
                 q.append(c)
-                weak = weak or len(q) >= 2
+                stale = False  # a fresh grant: the most recent grantee is the holder
             steps.append({'i': i, 'kind': 'in', 'client': c, 'ev': facts.claim, 'forced': idx,
                           'q': list(q)})
         elif o['op'] == 'release':
             script += [f'mccall {c} {nm} {facts.release["name"]}', 'idle']
             if c in q:
+                if q[-1] == c and len(q) > 1:
+                    stale = True
                 q.remove(c)
-            weak = weak and bool(q)
+            stale = stale and bool(q)
             steps.append({'i': i, 'kind': 'in', 'client': c, 'ev': facts.release, 'q': list(q)})
         elif o['op'] == 'other':
             if not facts.others:
@@ -102,7 +106,7 @@ def interpret(facts, hist):
                 continue
             ev = facts.outs[o['e'] % len(facts.outs)]
             script += [f'pcomp {nm} {ev["name"]}', 'idle']
-            steps.append({'i': i, 'kind': 'out', 'ev': ev, 'q': list(q), 'weak': weak})
+            steps.append({'i': i, 'kind': 'out', 'ev': ev, 'q': list(q), 'stale': stale})
     script.append('mark end')
     return script, steps
 
@@ -158,9 +162,12 @@ def judge(facts, hist, steps, trace, rc, err):
             raise Fail(f'{what}: other handlers fired: {[(h["side"], h["port"], h["ev"]) for h in stray]}',
                        'out-event-stray')
         q = s['q']
-        if len(q) <= 1 and not s.get('weak'):
-            if sorted(delivered) != sorted(q):
-                raise Fail(f'{what}: out-event delivered to {delivered}, the claim is held by {q}',
+        if not s.get('stale'):
+            # the holder is the most recent grantee that has not released (nobody if there is none)
+            want = q[-1:]
+            if sorted(delivered) != sorted(want):
+                raise Fail(f'{what}: out-event delivered to {delivered}, the claim is held by {want} '
+                           f'(granted and not released: {q})',
                            'out-event-target' + ('-nobody' if not delivered else '-wrong'))
         else:
             if len(delivered) > 1 or any(d not in q for d in delivered):
